@@ -11,6 +11,83 @@ import ast
 from ..loader import norm, AnalysisError, parents
 from ..poly import P, poly_of
 
+def _normalising_ctor(ci, fld, mods):
+    """the constructor of a term-list class that keeps its terms in normal form: pairs (c, v) are accumulated into a dict
+       self.F[v] = (self.F.get(v, 0) + c) % M, an entry that becomes 0 is removed.  Then the operators may hand it unreduced,
+       unmerged pair lists: reduction and cancellation happen here, for every object, whatever built it."""
+    init = ci.methods.get("__init__")
+    if init is None or len(init.params) != 2:
+        return False
+    par = init.params[1]
+    body = [s for s in init.node.body if not (isinstance(s, ast.Expr) and isinstance(s.value, ast.Constant))]
+    if len(body) != 2 or norm(body[0]).replace(" ", "") not in ("self.%s=dict()" % fld, "self.%s={}" % fld):
+        return False
+    lp = body[1]
+    if not (isinstance(lp, ast.For) and not lp.orelse and norm(lp.iter) == par and isinstance(lp.target, ast.Tuple) and len(lp.target.elts) == 2
+            and all(isinstance(e, ast.Name) for e in lp.target.elts) and len(lp.body) == 2):
+        return False
+    c, v = lp.target.elts[0].id, lp.target.elts[1].id
+    acc, st = lp.body
+    ok_acc = False
+    if isinstance(acc, ast.Assign) and len(acc.targets) == 1 and isinstance(acc.targets[0], ast.Name) and isinstance(acc.value, ast.BinOp) \
+            and isinstance(acc.value.op, ast.Mod) and norm(acc.value.right) in mods:
+        nm = acc.targets[0].id
+        if norm(acc.value.left).replace(" ", "") in ("self.%s.get(%s,0)+%s" % (fld, v, c), "%s+self.%s.get(%s,0)" % (c, fld, v)):
+            ok_acc = True
+    if not ok_acc:
+        return False
+    if not (isinstance(st, ast.If) and len(st.body) == 1 and len(st.orelse) == 1):
+        return False
+    t = norm(st.test).replace(" ", "")
+    keep, drop = (st.body[0], st.orelse[0]) if t in ("%s!=0" % nm, nm) else ((st.orelse[0], st.body[0]) if t in ("%s==0" % nm, "not%s" % nm) else (None, None))
+    if keep is None:
+        return False
+    return norm(keep).replace(" ", "") == "self.%s[%s]=%s" % (fld, v, nm) and norm(drop).replace(" ", "") in (
+        "self.%s.pop(%s,None)" % (fld, v), "delself.%s[%s]" % (fld, v))
+
+
+def _pairs_of(ci, fld, fn, e, depth=0):
+    """the object whose complete list of (coefficient, variable) pairs the expression denotes, or None:
+       X.F.items() read as (v, c) and re-paired, a method of the class that returns exactly that for self, a local bound to one"""
+    from ..flatten import resolve_locals
+    e = resolve_locals(fn, e)
+    if isinstance(e, ast.Call) and isinstance(e.func, ast.Attribute) and not e.args and isinstance(e.func.value, ast.Name) and depth < 2:
+        m = ci.methods.get(e.func.attr)
+        if m is not None and len(m.params) == 1:
+            rets = [r for r in ast.walk(m.node) if isinstance(r, ast.Return) and r.value is not None]
+            if len(rets) == 1 and _pairs_of(ci, fld, m.node, rets[0].value, depth + 1) == m.params[0]:
+                return e.func.value.id
+    if isinstance(e, ast.ListComp) and len(e.generators) == 1 and not e.generators[0].ifs and isinstance(e.generators[0].target, ast.Tuple) \
+            and len(e.generators[0].target.elts) == 2 and isinstance(e.elt, ast.Tuple) and len(e.elt.elts) == 2:
+        g = e.generators[0]
+        vv, cc = norm(g.target.elts[0]), norm(g.target.elts[1])
+        it = g.iter
+        if isinstance(it, ast.Call) and isinstance(it.func, ast.Attribute) and it.func.attr == "items" and not it.args \
+                and isinstance(it.func.value, ast.Attribute) and it.func.value.attr == fld and isinstance(it.func.value.value, ast.Name) \
+                and norm(e.elt.elts[0]) == cc and norm(e.elt.elts[1]) == vv:
+            return it.func.value.value.id
+    return None
+
+
+def _mapped_pairs(ci, fld, fn, e):
+    """(object, coefficient expression, coefficient variable) for `[(F(c), v) for (c, v) in <pairs of object>]`"""
+    from ..flatten import resolve_locals
+    e = resolve_locals(fn, e)
+    if isinstance(e, ast.ListComp) and len(e.generators) == 1 and not e.generators[0].ifs and isinstance(e.generators[0].target, ast.Tuple) \
+            and len(e.generators[0].target.elts) == 2 and isinstance(e.elt, ast.Tuple) and len(e.elt.elts) == 2:
+        g = e.generators[0]
+        src = _pairs_of(ci, fld, fn, g.iter)
+        cv, vv = norm(g.target.elts[0]), norm(g.target.elts[1])
+        if src is not None and norm(e.elt.elts[1]) == vv:
+            return src, e.elt.elts[0], cv
+        # directly over the dict: for v, c in X.F.items()
+        it = g.iter
+        if isinstance(it, ast.Call) and isinstance(it.func, ast.Attribute) and it.func.attr == "items" and isinstance(it.func.value, ast.Attribute) \
+                and it.func.value.attr == fld and isinstance(it.func.value.value, ast.Name) and norm(e.elt.elts[1]) == cv:
+            return it.func.value.value.id, e.elt.elts[0], vv
+    return None
+
+
 LC_CLASSES = [
     ("pysnark.snarkjsbackend", "LinearCombination", "lc", "dict"),
     ("pysnark.zkinterface.backend", "LinearCombination", "lc", "dict"),
@@ -427,8 +504,18 @@ def algebra(repo, rule, only=None):
             rets = [n for n in ast.walk(add.node) if isinstance(n, ast.Return)]
             s_, o_ = add.params
             t = norm(rets[0].value) if rets else ""
+            normctor = _normalising_ctor(ci, fld, modulus_names)
+            cat = None
+            if normctor and rets and isinstance(rets[0].value, ast.Call) and norm(rets[0].value.func) == cn and len(rets[0].value.args) == 1:
+                from ..flatten import resolve_locals as _rla
+                a0 = _rla(add.node, rets[0].value.args[0])
+                if isinstance(a0, ast.BinOp) and isinstance(a0.op, ast.Add):
+                    cat = {_pairs_of(ci, fld, add.node, a0.left), _pairs_of(ci, fld, add.node, a0.right)}
             if t in ("%s(%s.%s + %s.%s)" % (cn, s_, fld, o_, fld), "%s(%s.%s + %s.%s)" % (cn, o_, fld, s_, fld)):
                 rule.ok(add.loc(), add.fq, t, "term lists concatenated (no merge, no cancellation)")
+            elif cat == {s_, o_}:
+                rule.ok(add.loc(), add.fq, t[:120], "all pairs of both operands handed to the normalising constructor (merged, reduced mod p, "
+                                                    "cancelled terms dropped there)")
             else:
                 rule.undecided(add.loc(), add.fq, t, "term-list addition not in the concatenation form")
         # ---- __mul__
@@ -471,6 +558,21 @@ def algebra(repo, rule, only=None):
                                            "to c*k on the same variable" + (" reduced mod the field prime" if shape == "list" else ""),
                                            mul.fq + "/scale")
                         done = True
+        if not done and shape == "list" and _normalising_ctor(ci, fld, modulus_names) and len(rets) == 1 and isinstance(rets[0].value, ast.Call) \
+                and norm(rets[0].value.func) == cn and len(rets[0].value.args) == 1:
+            mp = _mapped_pairs(ci, fld, mul.node, rets[0].value.args[0])
+            if mp is not None and mp[0] == s_:
+                e_ = mp[1]
+                if isinstance(e_, ast.BinOp) and isinstance(e_.op, ast.Mod) and norm(e_.right) in modulus_names:
+                    e_ = e_.left
+                pm = poly_of(e_, {mp[2]: P.sym("c"), o_: P.sym("k")}, strict=True)
+                term = "every term: same variable, coefficient %s (reduced by the normalising constructor)" % pm
+                if pm == P.sym("c") * P.sym("k"):
+                    rule.ok(mul.loc(), mul.fq, term)
+                else:
+                    rule.violation(mul.loc(), mul.fq, term, "scalar multiplication does not map every coefficient c to c*k on the same variable",
+                                   mul.fq + "/scale")
+                done = True
         if not done:
             rule.undecided(mul.loc(), mul.fq, norm(mul.node.body)[:160], "scaling shape not interpretable")
         # ---- __neg__
@@ -495,6 +597,13 @@ def algebra(repo, rule, only=None):
                     e = e.left
                 p = poly_of(e, {cv: P.sym("c")}, strict=True)
                 okk = p == -P.sym("c") and norm(elt.elts[1]) == vv and red in modulus_names
+            if not okk and _normalising_ctor(ci, fld, modulus_names):
+                mp = _mapped_pairs(ci, fld, neg.node, comp)
+                if mp is not None and mp[0] == sn:
+                    e_ = mp[1]
+                    if isinstance(e_, ast.BinOp) and isinstance(e_.op, ast.Mod) and norm(e_.right) in modulus_names:
+                        e_ = e_.left
+                    okk = poly_of(e_, {mp[2]: P.sym("c")}, strict=True) == -P.sym("c")
             if okk:
                 rule.ok(neg.loc(), neg.fq, t, "every coefficient negated mod p on the same variable")
             else:
